@@ -310,6 +310,11 @@ class Result:
         self.broken.append((what, detail))
 
     def known(self, fid, what):
+        # only a finding that known_findings.json lists for this property suppresses anything; anything else is a violation
+        listed = [f for f in load_known() if f.get("id") == fid and f.get("status") == "known" and self.prop in (f.get("properties") or [f.get("property")])]
+        if not listed:
+            self.violation(f"{fid} is not a finding listed for {self.prop}: {what}", {"kind": "unlisted_finding", "finding": fid})
+            return
         if (fid, what) not in self.known_hits:
             self.known_hits.append((fid, what))
 
